@@ -21,6 +21,10 @@ const MAX_SYMBOL_DEPTH: usize = 32;
 /// How many nodes may be evaluated for one expression
 const MAX_EVALUATION_STEPS: usize = 1_000_000;
 
+/// How deep evaluation may recurse over operators and definitions of symbols together,
+/// every level costs a piece of the stack
+const MAX_EVALUATION_DEPTH: usize = 256;
+
 #[derive(Clone, PartialEq, Eq, Debug)]
 pub enum Expr {
     Ident(String),
@@ -116,18 +120,24 @@ impl Expr {
     }
 
     pub fn run(&self, constants: &dyn Context) -> Result<i64, ExprRunError> {
-        self.run_nested(constants, 0, &Cell::new(0))
+        self.run_nested(constants, 0, 0, &Cell::new(0))
     }
 
     /// Evaluate expression, `depth` counts symbols which are resolved through other symbols,
-    /// `steps` counts all evaluated nodes (symbols aren't cached, so definitions like
+    /// `level` counts nested calls of this function, `steps` counts all evaluated nodes (symbols aren't cached, so definitions like
     /// `.equ b = a + a`, `.equ c = b + b`, ... need exponential time)
     fn run_nested(
         &self,
         constants: &dyn Context,
         depth: usize,
+        level: usize,
         steps: &Cell<usize>,
     ) -> Result<i64, ExprRunError> {
+        if level > MAX_EVALUATION_DEPTH {
+            return Err(ExprRunError::ArithmeticError(
+                "Expression is nested too deep".to_string(),
+            ));
+        }
         steps.set(steps.get() + 1);
         if steps.get() > MAX_EVALUATION_STEPS {
             return Err(ExprRunError::ArithmeticError(
@@ -140,13 +150,13 @@ impl Expr {
                 Some(_) if depth >= MAX_SYMBOL_DEPTH => Err(ExprRunError::ArithmeticError(
                     format!("Definition of {} is recursive or nested too deep", ident),
                 )),
-                Some(expr) => expr.run_nested(constants, depth + 1, steps),
+                Some(expr) => expr.run_nested(constants, depth + 1, level + 1, steps),
                 None => Err(ExprRunError::MissingIdentifier(ident.clone())),
             },
             Expr::Const(value) => Ok(*value),
             Expr::Func(ident, argument) => {
                 if let Expr::Ident(name) = &**ident {
-                    let value = argument.run_nested(constants, depth, steps)?;
+                    let value = argument.run_nested(constants, depth, level + 1, steps)?;
                     let ret_val = match name.to_lowercase().as_str() {
                         "low" => (value as u64 & 0xff) as i64,
                         "high" | "byte2" => ((value as u64 & 0xff00) >> 8) as i64,
@@ -185,8 +195,8 @@ impl Expr {
                 }
             }
             Expr::Binary(binary) => {
-                let left = binary.left.run_nested(constants, depth, steps)?;
-                let right = binary.right.run_nested(constants, depth, steps)?;
+                let left = binary.left.run_nested(constants, depth, level + 1, steps)?;
+                let right = binary.right.run_nested(constants, depth, level + 1, steps)?;
                 match binary.operator {
                     BinaryOperator::Add => match left.checked_add(right) {
                         Some(value) => Ok(value),
@@ -268,7 +278,7 @@ impl Expr {
             }
             Expr::Unary(unary) => match unary.operator {
                 UnaryOperator::Minus => {
-                    let value = unary.expr.run_nested(constants, depth, steps)?;
+                    let value = unary.expr.run_nested(constants, depth, level + 1, steps)?;
                     match value.checked_neg() {
                         Some(value) => Ok(value),
                         None => Err(ExprRunError::ArithmeticError(format!(
@@ -278,11 +288,11 @@ impl Expr {
                     }
                 }
                 UnaryOperator::BitwiseNot => {
-                    let value = unary.expr.run_nested(constants, depth, steps)?;
+                    let value = unary.expr.run_nested(constants, depth, level + 1, steps)?;
                     Ok(!value)
                 }
                 UnaryOperator::LogicalNot => {
-                    let value = unary.expr.run_nested(constants, depth, steps)?;
+                    let value = unary.expr.run_nested(constants, depth, level + 1, steps)?;
                     Ok((value == 0) as i64)
                 }
             },
